@@ -563,7 +563,8 @@ def run_xcase(case, orc, table, seed):
             out.append(("lap_cut", dev, None))
             unchanged("defaults", ("density", rho, rho0), ("points", P, P0))
         elif kind == "x_forms":
-            _x_forms(case, out, grid, ags, itf, kw, rho, P, Pl, Pi, spherical, table, atoms, reldiff, bvp)
+            _x_forms(case, out, grid, ags, itf, kw, rho, P, Pl, Pi, spherical, table, atoms, reldiff, bvp,
+                     lambda pts: pot(terms, owner, pts), orc)
             unchanged("forms", ("density", rho, rho0), ("points", P, P0))
         elif kind == "x_pts":
             v = bvp(rho)
@@ -621,7 +622,7 @@ def _same(now, before):
     return a.shape == b.shape and a.dtype == b.dtype and bool(np.all(a == b))
 
 
-def _x_forms(case, out, grid, ags, itf, kw, rho, P, Pl, Pi, spherical, table, atoms, reldiff, bvp):
+def _x_forms(case, out, grid, ags, itf, kw, rho, P, Pl, Pi, spherical, table, atoms, reldiff, bvp, pot_rho, orc):
     """FormEquiv / Purity of PoissonX.tla: every representation of the arguments against the float64 ndarray call."""
     from grid.becke import BeckeWeights
     from grid.molgrid import MolGrid
@@ -688,8 +689,12 @@ def _x_forms(case, out, grid, ags, itf, kw, rho, P, Pl, Pi, spherical, table, at
     el = case["elements"][0]
     atnums, atcoords = np.array([_Z[el]]), np.array(atoms)
     split2 = bool(case["split2"])
-    dens = rho + 0.5 * sum(float(c) * (float(al) / np.pi) ** 1.5 * np.exp(-float(al) * np.sum((grid.points - atoms[0]) ** 2, axis=1))
-                           for c, al in zip(table[el]["coeffs_s"], table[el]["alphas_s"]))
+    # density = core model + sgn * rho with sgn = sign of the leading coefficient: the residual after the core subtraction
+    # is a combination of Gaussians with positive lead, so the NNLS fit of split2 is never empty (the bonding part of the
+    # recombination is really exercised)
+    cts = [{"l": 0, "i": 1, "c": _q(c), "alpha": _q(al), "d": [[0, 1]] * 3} for c, al in zip(table[el]["coeffs_s"], table[el]["alphas_s"])]
+    sgn = 1.0 if fr(case["terms"][0]["c"]) > 0 else -1.0
+    dens = sgn * rho + sum(orc.rho(t, atoms[0], grid.points) for t in cts)
     basis = np.array([1.0, 2.0, 5.0, 20.0, 100.0])
 
     def rob(d=dens, z=atnums, xyz=atcoords, pts=P, **extra):
@@ -697,6 +702,10 @@ def _x_forms(case, out, grid, ags, itf, kw, rho, P, Pl, Pi, spherical, table, at
 
     r0 = rob()
     rb = rob(alphas_basis=basis) if split2 else None
+    ex = sgn * pot_rho(P) + sum(orc.pot(t, atoms[0], P) for t in cts)
+    out.append(("robust_core", float(np.max(np.abs(r0 - ex)) / np.max(np.abs(ex))), f"split2={split2}, default basis"))
+    if split2:
+        out.append(("robust_core", float(np.max(np.abs(rb - ex)) / np.max(np.abs(ex))), "split2, five-exponent basis"))
     for ff in case["robustforms"]:
         f = ff["form"]
         try:
@@ -932,7 +941,7 @@ def selftest(tier: str = "quick") -> int:
         ("boundary-value-loses-its-sign-bvp", src(P, "        boundary = atomgrid.integrate(func_vals) / sph_o_l[0, 0]\n\n    # Check if the domain",
                                                   "        boundary = abs(atomgrid.integrate(func_vals)) / sph_o_l[0, 0]\n\n    # Check if the domain", rb)),
         ("boundary-value-never-zero", src(P, "        boundary = atomgrid.integrate(func_vals) / sph_o_l[0, 0]\n\n    # Check if the domain",
-                                          "        boundary = (atomgrid.integrate(func_vals) or 1e-8) / sph_o_l[0, 0]\n\n    # Check if the domain", rb)),
+                                          "        boundary = (atomgrid.integrate(func_vals) or 1e-3) / sph_o_l[0, 0]\n\n    # Check if the domain", rb)),
         # representations of the arguments (x_forms)
         ("density-must-be-an-ndarray", src(P, "    func_vals_atom = func_vals * molgrid.aim_weights\n    # Go through each atomic grid and construct interpolation of f*w_n.\n    interpolate_funcs = []\n    for i in range(len(molgrid.atcoords)):\n        # Get the atomic grid",
                                            "    func_vals_atom = func_vals.astype(float) * molgrid.aim_weights\n    # Go through each atomic grid and construct interpolation of f*w_n.\n    interpolate_funcs = []\n    for i in range(len(molgrid.atcoords)):\n        # Get the atomic grid", rb)),
